@@ -135,7 +135,9 @@ class Task:
                 f"Requeueing yielded task {self._name} in FIFO {self._key} "
                 f"with delay {result} seconds"
             )
-            self._queue.put(self, self._key, wait=result)
+            self._queue.put(
+                self, self._key, exclusive=self._exclusive, wait=result
+            )
             return False
         except StopIteration:
             # Function exited without yielding (i.e. we're done)
